@@ -340,6 +340,8 @@ def run_shard(desc, acc):
         run_model(acc, "filter-pool", spec, {"source": "filter-pool", "spec": spec}, with_filters=True, r=r)
     # histories
     pool = [rand_metrics_model(rand.rng(seed, "c17pool", k), nmax=20) for k in range(12)]
+    pool = [rand.shared_vocabulary(p, rand.rng(seed, "c17voc", k), size=20) if k % 2 == 0 and len(S.feature_names(p)) > 1 else p
+            for k, p in enumerate(pool)]
     for j in range(desc["n_hist"]):
         if j % n == i:
             rr = rand.rng(seed, "c17h", j)
@@ -375,6 +377,8 @@ def run_shard(desc, acc):
 def replay(payload, acc):
     if payload.get("source") == "history":
         pool = [rand_metrics_model(rand.rng(payload["pool_seed"], "c17pool", k), nmax=20) for k in range(12)]
+        pool = [rand.shared_vocabulary(p, rand.rng(payload["pool_seed"], "c17voc", k), size=20)
+                if k % 2 == 0 and len(S.feature_names(p)) > 1 else p for k, p in enumerate(pool)]
         run_history(acc, pool, payload["seq"], payload)
     elif payload.get("path"):
         acc.inconc("corpus replays run through the quick tier")
